@@ -6,6 +6,8 @@ import (
 	"go/token"
 	"go/types"
 
+	"golang.org/x/tools/go/cfg"
+
 	"j5verif/checker/core"
 )
 
@@ -223,59 +225,86 @@ func emptyArrayForm(r *core.Run) {
 			}
 		}
 	}
-	returnsToken := func(b *ast.BlockStmt) bool {
-		found := false
-		ast.Inspect(b, func(n ast.Node) bool {
-			ret, ok := n.(*ast.ReturnStmt)
-			if !ok {
-				return true
-			}
-			ast.Inspect(ret, func(m ast.Node) bool {
-				if s, ok := m.(*ast.SelectorExpr); ok && info.Uses[s.Sel] == tokenField {
-					if id, ok := core.Unparen(s.X).(*ast.Ident); ok && self[info.Uses[id]] {
-						found = true
-					}
-				}
-				return true
-			})
-			return true
-		})
-		return found
-	}
-	n := 0
-	ast.Inspect(fd.Body, func(x ast.Node) bool {
-		is, ok := x.(*ast.IfStmt)
+	// the returns that hand back the value's own token
+	var tokenReturns []*ast.ReturnStmt
+	ast.Inspect(fd.Body, func(n ast.Node) bool {
+		if _, ok := n.(*ast.FuncLit); ok {
+			return false
+		}
+		ret, ok := n.(*ast.ReturnStmt)
 		if !ok {
 			return true
 		}
-		var cond ast.Expr
-		neg := false
-		if returnsToken(is.Body) {
-			cond = is.Cond
-		} else if eb, ok := is.Else.(*ast.BlockStmt); ok && returnsToken(eb) {
-			cond, neg = is.Cond, true
-		}
-		if cond == nil {
+		ast.Inspect(ret, func(m ast.Node) bool {
+			if s, ok := m.(*ast.SelectorExpr); ok && info.Uses[s.Sel] == tokenField {
+				if id, ok := core.Unparen(s.X).(*ast.Ident); ok && self[info.Uses[id]] {
+					tokenReturns = append(tokenReturns, ret)
+					return false
+				}
+			}
 			return true
+		})
+		return true
+	})
+	// walk the control-flow graph under the abstract value: a condition that evaluates to true/false
+	// is followed on that edge only, an unknown one on both
+	g := cfg.New(fd.Body, func(*ast.CallExpr) bool { return true })
+	reached := map[*cfg.Block]int{} // 1 definitely (only decided edges), -1 through an undecided edge
+	var walk func(b *cfg.Block, sure bool)
+	walk = func(b *cfg.Block, sure bool) {
+		mark := -1
+		if sure {
+			mark = 1
 		}
+		if prev, ok := reached[b]; ok && (prev == 1 || prev == mark) {
+			return
+		}
+		reached[b] = mark
+		var cond ast.Expr
+		if len(b.Succs) == 2 && len(b.Nodes) > 0 {
+			cond = core.BlockCond(b)
+		}
+		v := -1
+		if cond != nil {
+			v = eval(cond, self, 3)
+		}
+		for i, sc := range b.Succs {
+			switch {
+			case len(b.Succs) != 2 || cond == nil:
+				walk(sc, sure && len(b.Succs) == 1)
+			case v == 1 && i == 0, v == 0 && i == 1:
+				walk(sc, sure)
+			case v < 0:
+				walk(sc, false)
+			}
+		}
+	}
+	if len(g.Blocks) > 0 {
+		walk(g.Blocks[0], true)
+	}
+	n := 0
+	for _, ret := range tokenReturns {
 		n++
-		o := r.Add("R-SYM/forms", core.FuncName(fd)+" | single-token branch vs empty array", is.Pos(), "empty array is rendered with brackets")
-		v := eval(cond, self, 3)
-		if neg {
-			v = not(v)
+		o := r.Add("R-SYM/forms", core.FuncName(fd)+" | single-token return vs empty array", ret.Pos(), "empty array is rendered with brackets")
+		how := 0
+		for _, b := range g.Blocks {
+			for _, nd := range b.Nodes {
+				if nd == ast.Node(ret) {
+					how = reached[b]
+				}
+			}
 		}
 		switch {
 		case emptyLit == nil:
 			o.Auto("the parser has no Value literal with an empty array: the form does not arise")
-		case v == 0:
-			o.Auto("condition %s is false on {array: non-nil, len 0} (the form built at %s): `[]` takes the bracket rendering", core.ExprStr(cond), r.P.Rel(emptyLit.Pos()))
-		case v == 1:
-			o.Fail("condition %s holds for the parser's empty-array value (array non-nil, length 0; built at %s): `x = []` is re-emitted as its zero token — the output drops the brackets and no longer parses", core.ExprStr(cond), r.P.Rel(emptyLit.Pos()))
+		case how == 0:
+			o.Auto("not reachable for {array: non-nil, len 0} (the form built at %s; branch conditions evaluated on it): `[]` takes the bracket rendering", r.P.Rel(emptyLit.Pos()))
+		case how == 1:
+			o.Fail("this return of the value's own token is reached for the parser's empty-array value (array non-nil, length 0; built at %s): `x = []` is re-emitted as its zero token — the output drops the brackets and no longer parses", r.P.Rel(emptyLit.Pos()))
 		default:
-			o.Fail("condition %s cannot be evaluated on the parser's empty-array value (array non-nil, length 0; built at %s): the rule knows nil tests, len comparisons, !, &&, || and one-line predicate methods of Value", core.ExprStr(cond), r.P.Rel(emptyLit.Pos()))
+			o.Fail("this return of the value's own token may be reached for the parser's empty-array value (array non-nil, length 0; built at %s) through a condition the rule cannot evaluate (it knows nil tests, len comparisons, !, &&, || and one-line predicate methods of Value)", r.P.Rel(emptyLit.Pos()))
 		}
-		return true
-	})
+	}
 	if n == 0 {
 		o := r.Add("R-SYM/forms", core.FuncName(fd)+" | single-token branch vs empty array", fd.Pos(), "empty array is rendered with brackets")
 		o.Fail("no branch of valueTokens returning the value's own token was found: the rule cannot locate the scalar/array decision")
